@@ -137,10 +137,17 @@ func init() {
 					add(c12In{K: "cur", Lists: [][]uint64{l}, Ts: targets(r, l, 1+r.Intn(40), span)})
 				case 1:
 					g := 1 + r.Intn(5)
+					if k%30 == 1 { // wide groups: more members than any machine-word bookkeeping holds
+						g = pick(r, []int{63, 64, 65, 66, 70, 129, 200})
+					}
 					var ls [][]uint64
 					var all []uint64
 					for i := 0; i < g; i++ {
-						l := sortedList(r, r.Intn(ln+1), span, 25)
+						m := r.Intn(ln + 1)
+						if g > 60 { // short members that finish early next to long ones that stay alive
+							m = pick(r, []int{1, 1, 2, 12})
+						}
+						l := sortedList(r, m, span, 25)
 						ls = append(ls, l)
 						all = append(all, l...)
 					}
